@@ -67,6 +67,8 @@ func runOracles(res *Result, prop string, c *Case) {
 		oracleC19(res, c)
 	case "C11":
 		oracleC11(res, c)
+	case "C07":
+		oracleC07(res, c)
 	}
 }
 
